@@ -271,7 +271,7 @@ def run_check(prop, tier, seed, nproc=None):
     print(
         f"{prop} {tier}: evaluations={total.evaluations} states={len(total.states)} "
         f"transitions={total.transitions} nontrivial={len(total.nontrivial)} "
-        f"outcomes={len(total.outcomes)} violations={len(new_violations)} "
+        f"outcomes={len(total.outcomes)} violations={len(new_violations) + len(job_errors)} "
         f"known={len(known_hit)} caps={len(total.caps)} wall={wall:.1f}s"
     )
     return rc
